@@ -144,10 +144,10 @@ func TestVerifC06(t *testing.T) {
 	pushes := func() int { vip.mu.Lock(); defer vip.mu.Unlock(); return vip.Calls["pushstart"] }
 	allCanaries := []string{canary["alice"], canary["bob"], canary["root1"]}
 	methods := []string{"GET", "POST"}
-	origins := []string{"none", "cross-origin", "null-origin", "cross-referer"}
+	origins := []string{"none", "cross-origin", "null-origin", "cross-referer", "sibling-origin"}
 	if verifThorough() {
 		methods = []string{"GET", "POST", "PUT", "DELETE", "HEAD"}
-		origins = []string{"none", "same-site", "cross-origin", "cross-referer", "null-origin", "malformed-origin"}
+		origins = []string{"none", "same-site", "cross-origin", "cross-referer", "null-origin", "malformed-origin", "sibling-origin", "sibling-origin-2", "sibling-referer"}
 	}
 	trust, _ := verifPublishedTrust(env)
 	probe := func(tg target, cred verifCred, method, origin string) {
@@ -178,6 +178,14 @@ func TestVerifC06(t *testing.T) {
 			q.Header["Referer"] = "https://evil.example/page"
 		case "null-origin":
 			q.Header["Origin"] = "null"
+		case "sibling-origin":
+			// another origin on the same machine: the same host name at another port (its tail differs only by digits of
+			// the default https port), e.g. a second service next to keymaster
+			q.Header["Origin"] = "https://" + verifHostIdentity + ":3344"
+		case "sibling-origin-2":
+			q.Header["Origin"] = "https://" + verifHostIdentity + "4" + verifHTTPAddress
+		case "sibling-referer":
+			q.Header["Referer"] = "https://" + verifHostIdentity + ":334/page"
 		case "malformed-origin":
 			q.Header["Origin"] = "https://evil.example:bad port/"
 		}
@@ -215,7 +223,7 @@ func TestVerifC06(t *testing.T) {
 			eff = append(eff, "push-transaction-started")
 		}
 		cs := c06Case{Route: tg.route, Path: tg.path, Method: method, Origin: origin, Cred: cred.Name, Class: class, Status: resp.Code, Effects: eff}
-		crossSite := origin == "cross-origin" || origin == "cross-referer" || origin == "null-origin"
+		crossSite := origin == "cross-origin" || origin == "cross-referer" || origin == "null-origin" || strings.HasPrefix(origin, "sibling-")
 		// ---- which rule applies
 		rule := ""
 		switch {
@@ -283,7 +291,7 @@ func TestVerifC06(t *testing.T) {
 					if !verifThorough() && o != "none" && !ambient && (o != "cross-origin" || (len(tg.path)+len(cred.Name))%4 != 0) {
 						continue // quick: cross-site matters for valid cookies and client certificates; sample the rest
 					}
-					if !verifThorough() && (o == "null-origin" || o == "cross-referer") && m == "GET" {
+					if !verifThorough() && (o == "null-origin" || o == "cross-referer" || o == "sibling-origin") && m == "GET" {
 						continue
 					}
 					probe(tg, cred, m, o)
